@@ -100,6 +100,16 @@ def run_case(case):
                 dec.add(sub, sparse=sparse)      # the same subordinate again: refused, and nothing may change
             except ValueError:
                 pass
+        if rng.random() < 0.12:
+            # another interface object carrying the same memory map is offered to the same decoder: refused (the map
+            # is already a window), and nothing may change
+            twin_port = wishbone.Interface(addr_width=sub.addr_width, data_width=sub.data_width, granularity=sub.granularity,
+                                           features=sfeat, path=(f"twin{i}",))
+            twin_port.memory_map = sub.memory_map
+            try:
+                dec.add(twin_port, sparse=sparse)
+            except ValueError:
+                pass
         if case.get("query_between_adds") and rng.random() < 0.15:
             from amaranth.hdl import Fragment
             Fragment.get(dec, None)   # bring-up elaboration of a partly populated decoder
